@@ -391,10 +391,6 @@ def strat(tier, opts):
     return cases(tier)
 
 
-def images_for_c03(res, tier, seed, scale):
-    return
-
-
 def main(tier, seed, scale=1.0):
     vbuild.build("asan")
     n = int((4000 if tier == "quick" else 60000) * scale)
